@@ -526,7 +526,13 @@ def scenario_oracle(ctx, sc, trace, engine):
                 before = len(trace[i - 1]['timers']) if i else 0
                 armed = snap['timers'][before:]
                 want_t = [round(min(pending) / 1e6)] if pending else []
-                if armed != want_t:
+                # the property: some pending timer fires no later than the
+                # rounded smallest pending delay (exactly which timers are armed
+                # is the correspondence's business)
+                now_ts = datetime.datetime(*step[1], tzinfo=datetime.timezone.utc).timestamp()
+                covered = bool(want_t) and any(due <= now_ts + want_t[0] + 1e-3
+                                               for due in snap.get('timers_due', []))
+                if armed != want_t and not (want_t and covered):
                     ctx.violation(
                         'timer-not-earliest', {'step': step[0]},
                         'defer() at %s armed timers %s; pending delays %s need %s'
